@@ -755,6 +755,11 @@ def where_rows(I, mask):
         return z3.BoolVal(True)
 
     sel.mono = mono
+    # lemma L-pigeonhole (finite sets; stated once in DESIGN.md 6, Lean proof in lemmas/Pigeonhole.lean): the enumeration
+    # is injective into the index set, so if it has as many entries as the mask has positions, every
+    # position is enumerated and therefore satisfies the mask
+    if nf:
+        I.ctx.schema(("all", dims), lambda idx: z3.Implies(M == total, mask_at([zint(c) for comp in idx for c in comp])))
     if nf == 0:
         I.ctx.assume(z3.If(mask_at(()), M == 1, M == 0))
     I.ctx.ghost.setdefault("selectors", []).append(sel)
